@@ -16,13 +16,16 @@ inline std::function<void(solver*, const char*)>& phase_cb() { static std::funct
 
 struct CellSpec { sc::Mesh mesh; cell_type_param_ptr type; };
 
+// ids the cells carry when they are handed to the solver constructor: 0 = their places (what simulation_initializer produces), 1 = reversed, 2 = ids of a later point of a run
+// (70000 + 3 i) with unrelated position indices — a list that was reordered, filtered or taken from the population of an earlier run
+inline int& incoming_ids() { static int v = 0; return v; }
 struct World {
     std::vector<cell_ptr> initial;
     std::unique_ptr<solver> s;
     global_simulation_parameters p;
     World(const std::vector<CellSpec>& cells, const global_simulation_parameters& params, bool stats_in_string = true) : p(params) {
         srand(1); simucell3d_verif::reset_rng_counters();
-        for (size_t i = 0; i < cells.size(); i++) initial.push_back(sc::make_cell(cells[i].mesh, (unsigned)i, cells[i].type, true));
+        for (size_t i = 0; i < cells.size(); i++) { const unsigned id = incoming_ids() == 0 ? (unsigned)i : incoming_ids() == 1 ? (unsigned)(cells.size() - 1 - i) : 70000u + 3u * (unsigned)i; initial.push_back(sc::make_cell(cells[i].mesh, id, cells[i].type, true)); if (incoming_ids() == 2) initial.back()->set_local_id(9000 + (unsigned)i); else if (incoming_ids() == 1) initial.back()->set_local_id(id); }
         s = std::make_unique<solver>(p, initial, 1, stats_in_string, false);
     }
     std::vector<cell_ptr>& cells() { return s->cell_lst_; }
